@@ -189,6 +189,22 @@ struct Runner
       }
       case O_INVOKE: {
         if (st[o] != CR) { n_skipped++; return true; } // invoking a sandbox that is not created is not driven
+        // the address of the function (the backend's internal representation) must be that of the *current* incarnation's
+        // library; taken before or after the by-name invocation, alternating
+        auto addr_ok = [&]() -> bool {
+          void* got = nullptr;
+          bool ab2 = mon::aborts([&] { got = reinterpret_cast<void*>(s.template INTERNAL_get_sandbox_function_name<int()>("lib_id").UNSAFE_unverified()); });
+          void* want = g_lib[lib[o] - 1].exports.at("lib_id").internal_addr;
+          if (ab2 || got != want) {
+            fail("function-address", "address-from-another-incarnation-or-library",
+                 mon::fmt("sandbox %d runs library %d: get_sandbox_function_address(lib_id) gave %p, this library's function is %p (library 1: %p, library 2: %p)%s", o, lib[o], got, want,
+                          g_lib[0].exports.at("lib_id").internal_addr, g_lib[1].exports.at("lib_id").internal_addr, ab2 ? " (aborted)" : ""));
+            return false;
+          }
+          return true;
+        };
+        bool addr_first = (n_steps & 1) != 0;
+        if (addr_first && !addr_ok()) return false;
         world::glog.clear();
         int r = -1;
         bool ab = mon::aborts([&] { r = s.template INTERNAL_invoke_with_func_name<int()>("lib_id").UNSAFE_unverified(); });
@@ -199,6 +215,7 @@ struct Runner
                         (!world::glog.empty() && world::glog[0].instance == s.get_sandbox_impl()) ? "own" : "other", r));
           return false;
         }
+        if (!addr_first && !addr_ok()) return false;
         n_ok++;
         break;
       }
